@@ -27,6 +27,11 @@ ANY_GRID = ('Apodizer', 'PhaseApodizer', 'SurfaceApodizer', 'Magnifier', 'JonesM
             'LinearRetarder', 'LinearPolarizer', 'TiltElement')
 
 
+def model_pair(a, b):
+    """`Cache.pair` of the model (Model/Cache.lean): the id `gridKey` gives the grid (coordinate id, weights id)."""
+    return b * b + a if a < b else a * a + a + b
+
+
 def wl_key(wl):
     return int(np.round(np.log(wl) / np.log(1 + 1e-9)))
 
@@ -282,6 +287,9 @@ def compare_wavefronts(a, b, tol):
         return 'shapes differ: %s vs %s' % (ea.shape, eb.shape)
     if hash(a.electric_field.grid) != hash(b.electric_field.grid):
         return 'output grids differ'
+    dw = weights_differ(a.electric_field.grid, b.electric_field.grid)
+    if dw:
+        return dw
     if a.wavelength != b.wavelength:
         return 'wavelengths differ'
     scale = max(1.0, float(np.max(np.abs(eb))) if eb.size else 1.0)
@@ -298,7 +306,9 @@ def compare_values(a, b, tol):
         return None if a is b else 'None vs value'
     import hcipy as hp
     if isinstance(a, hp.Grid) or isinstance(b, hp.Grid):
-        return None if (isinstance(a, hp.Grid) and isinstance(b, hp.Grid) and hash(a) == hash(b)) else 'grids differ'
+        if not (isinstance(a, hp.Grid) and isinstance(b, hp.Grid) and hash(a) == hash(b)):
+            return 'grids differ'
+        return weights_differ(a, b)
     try:
         xa, xb = np.asarray(a), np.asarray(b)
     except Exception:
@@ -351,7 +361,53 @@ def near_grid(g, kind, eps):
         sc = [np.array(c, dtype=float).copy() for c in g.separated_coords]
         sc[0][1] += eps * ext
         return hp.CartesianGrid(hp.SeparatedCoords(sc))
+    if kind == 'weights':
+        # equal coordinates (the grids compare and hash equal), other weights: `eps` names the variant
+        b = g.copy()
+        b.weights = weights_variant(g, int(eps))
+        return b
     raise MachineryError('unknown near-grid kind %r' % (kind,))
+
+
+WEIGHT_VARIANTS = [1, 2, 3, 4, 5]
+
+
+def weights_variant(g, variant):
+    """Explicit weights for a grid with the coordinates of `g`: 1 = ones per point ("count pixels"), 2 = a scalar twice
+    the automatic cell area, 3 = a smooth per-point variation of the cell area, 4 = the automatic weights written out as
+    an explicit array (another representation of the same weights), 5 = half the cell area per point."""
+    auto = np.asarray(g.copy().weights, dtype=float)
+    if variant == 1:
+        return np.ones(g.size)
+    if variant == 2:
+        return np.float64(np.mean(auto) * 2.0)      # (a plain Python float makes MatrixFourierTransform raise: .astype)
+    if variant == 3:
+        ext = float(np.max(np.abs(g.x))) or 1.0
+        return (auto * np.ones(g.size)) * (1.0 + 0.5 * np.asarray(g.x) / ext)
+    if variant == 4:
+        return auto * np.ones(g.size)
+    if variant == 5:
+        return 0.5 * auto * np.ones(g.size)
+    raise MachineryError('unknown weights variant %r' % (variant,))
+
+
+def weights_digest(grid):
+    """What distinguishes two grids with equal coordinates: their weights (shape and values)."""
+    w = np.ascontiguousarray(grid.weights, dtype=float) + 0.0
+    return (w.shape, w.tobytes())
+
+
+def weights_differ(a, b):
+    """None if the weights of two grids of equal size describe the same cell areas, else a description."""
+    wa = np.asarray(a.weights, dtype=float) * np.ones(a.size)
+    wb = np.asarray(b.weights, dtype=float) * np.ones(b.size)
+    if wa.shape != wb.shape:
+        return 'weights of the output grids have different shapes'
+    scale = max(float(np.max(np.abs(wb))), 1e-300)
+    err = float(np.max(np.abs(wa - wb)))
+    if err > 1e-9 * scale:
+        return 'weights of the output grids differ: max abs error %.3g (scale %.3g)' % (err, scale)
+    return None
 
 
 class Hist:
@@ -400,7 +456,11 @@ class Hist:
                 self.elem.get_instance_data = rec
             except Exception as e:
                 self.state_issue('cannot wrap get_instance_data: %r' % (e,))
-        self.gid = {}
+        self.gid = {}            # (coordinate id, weights id) -> model grid id
+        self.cid = {}            # hash(grid) -> coordinate id
+        self.wgt = {}            # weights digest -> weights id
+        self.kid = {}            # key part the code uses for a grid -> (coordinate id, weights id)
+        self.key_unreadable = False
         self.wid = {wl_key(w): k for k, w in enumerate(WLS)}
         if len(self.wid) != len(WLS):
             raise MachineryError('wavelength keys collide')
@@ -419,17 +479,65 @@ class Hist:
     def state_issue(self, msg):
         self.state_issues.append(msg)
 
+    def grid_ids(self, grid):
+        """(coordinate id, weights id) of a grid: what `==`/`hash` see and what they ignore."""
+        hc = hash(grid)
+        if hc not in self.cid:
+            self.cid[hc] = len(self.cid) + 1
+        hw = weights_digest(grid)
+        if hw not in self.wgt:
+            self.wgt[hw] = len(self.wgt) + 1
+        ids = (self.cid[hc], self.wgt[hw])
+        if ids not in self.gid:
+            self.gid[ids] = model_pair(*ids)
+            if len([1 for x in self.gid if x[0] == ids[0]]) > 1:
+                self.count('grid-equal-coordinates-other-weights')
+            self.learn_key_part(grid, ids)
+        return ids
+
+    def learn_key_part(self, grid, ids):
+        """Which key part the code under test uses for this grid (observed through `_get_cache_keys`; falls back to
+        `hash(grid)` when that cannot be read).  Two different grids under one key part: the key does not cover what
+        distinguishes them -- recorded, the oracle decides whether results are wrong."""
+        if not self.grid_dep:
+            return
+        kp = None
+        try:
+            ks = self.elem._get_cache_keys(grid, None, WLS[0] if self.wl_dep else None)
+            k = ks[0]
+            if not isinstance(k, tuple) or len(k) != 3 or k[0] is None or k[1] is not None:
+                raise ValueError('unexpected forward key %r' % (k,))
+            kp = k[0]
+            hash(kp)
+        except Exception as e:
+            if not self.key_unreadable:
+                self.state_issue('cannot read the key part of a grid through _get_cache_keys: %r' % (e,))
+            self.key_unreadable = True
+            kp = hash(grid)
+        if kp in self.kid and self.kid[kp] != ids:
+            a = self.kid[kp]
+            what = 'weights' if a[0] == ids[0] else 'coordinates'
+            self.state_issue('the cache key does not distinguish grid %d.%d from grid %d.%d (they differ in their %s)'
+                             % (a + ids + (what,)))
+            self.count('key-collision:' + what)
+            return
+        self.kid[kp] = ids
+
     def G(self, grid):
+        """The id under which the model's cache sees the grid (`gridKey`), as printed in keys and cache contents."""
         if grid is None:
             return '-'
-        h = hash(grid)
-        if h not in self.gid:
-            self.gid[h] = len(self.gid) + 1
-        return str(self.gid[h])
+        return str(self.gid[self.grid_ids(grid)])
+
+    def Gq(self, grid):
+        """A grid as argument of a model request: `<coordinate id>.<weights id>`."""
+        if grid is None:
+            return '-'
+        return '%d.%d' % self.grid_ids(grid)
 
     def gname(self, h):
         try:
-            return '-' if h is None else str(self.gid.get(h, '?'))
+            return '-' if h is None else (str(self.gid[self.kid[h]]) if h in self.kid else '?')
         except TypeError:
             return '?'
 
@@ -480,10 +588,10 @@ class Hist:
         ii = gi
         if gi is None and go is not None:
             ii = fresh.get_input_grid(go, wl)
-            ri = self.G(ii)
+            ri = self.Gq(ii)
         if go is None and ii is not None:
-            ro = self.G(fresh.get_output_grid(ii, wl))
-        return 'C05 req %s %s %s %s %s' % (self.G(gi), self.G(go), a, ri, ro)
+            ro = self.Gq(fresh.get_output_grid(ii, wl))
+        return 'C05 req %s %s %s %s %s' % (self.Gq(gi), self.Gq(go), a, ri, ro)
 
     def observe(self, line, status, nhanded0, dt=None):
         obs = {'status': status}
@@ -574,6 +682,8 @@ class Hist:
                         target.rotate(float(arg))
                     elif how == 'reverse':
                         target.reverse()
+                    elif how == 'weights':
+                        target.weights = weights_variant(target, int(arg))
                     else:
                         raise MachineryError('unknown in-place operation %r' % (how,))
                 except MachineryError:
@@ -728,9 +838,20 @@ def gen_case(rng, spec, el_setters, big):
         for _ in range(int(rng.integers(2, 6)) if style == 'near' else 1):
             eps = NEAR_EPS[int(rng.integers(0, len(NEAR_EPS)))] if style == 'near' else 0.0
             near.append([base, str(rng.choice(kinds)) if eps else 'delta', eps])
+    # every style: grids that equal a grid of the working set in their coordinates (`==`, `hash`) and differ in what
+    # equality ignores -- their weights
+    if style == 'near' or rng.random() < 0.6:
+        for _ in range(int(rng.integers(1, 3))):
+            near.append([fsel[0], 'weights', int(rng.choice(WEIGHT_VARIANTS))])
+    if near:
+        base = fsel[0]
         extra = [len(spec.fwd) + k for k in range(len(near))]
-        fsel = [base] + extra + fsel[1:2]
-        bsel = [base] + extra + bsel[:1]
+        if style in ('near', 'mutate'):
+            fsel = [base] + extra + fsel[1:2]
+            bsel = [base] + extra + bsel[:1]
+        else:
+            fsel = [base] + extra + fsel[1:]
+            bsel = [base] + extra + [b for b in bsel if b != base]
     for _ in range(n):
         r = rng.random()
         dt = str(rng.choice(spec.dtypes))
@@ -740,9 +861,9 @@ def gen_case(rng, spec, el_setters, big):
         p_both = 0.3 if style == 'both' else 0.08
         p_mut = 0.2 if style == 'mutate' else (0.03 if style == 'mixed' else 0.0)
         if rng.random() < p_mut:
-            hows = ['scale', 'shift'] + (['rotate', 'reverse'] if spec.any_grid else [])
+            hows = ['scale', 'shift', 'weights'] + (['rotate', 'reverse'] if spec.any_grid else [])
             how = str(rng.choice(hows))
-            arg = {'scale': float(rng.choice([2.0, 0.5, 1.5, 0.75])),
+            arg = {'scale': float(rng.choice([2.0, 0.5, 1.5, 0.75])), 'weights': int(rng.choice(WEIGHT_VARIANTS)),
                    'shift': [float(rng.integers(-4, 5)) / 8.0, float(rng.integers(-4, 5)) / 16.0],
                    'rotate': float(rng.integers(1, 8)) / 8.0, 'reverse': None}[how]
             # mostly a grid of the working set that is a pool grid (not a near variant)
@@ -767,7 +888,7 @@ def gen_case(rng, spec, el_setters, big):
                 w = int(rng.choice(wsel))
             else:
                 # favour a small working set (two grids, one wavelength) so that hits are frequent
-                k_work = len(near) + 2 if style in ('near', 'mutate') else 2
+                k_work = len(near) + 2
                 g = int(pool[int(rng.integers(0, min(k_work, len(pool))))]) if rng.random() < 0.7 else int(rng.choice(pool))
                 w = int(wsel[0]) if rng.random() < (0.9 if style in ('near', 'mutate') else 0.7) else int(rng.choice(wsel))
             ops.append(['bwd' if back else 'fwd', g, w, dt, int(pol), seed])
@@ -812,6 +933,14 @@ def directed():
             fam.append([0, 'coord', 1e-6])
         D.append({'spec': name, 'maxN': None, 'style': 'directed', 'near': fam,
                   'ops': [fw(0)] + [fw(N + k) for k in range(len(fam))] + [bw(N), bw(0), fw(N + 1), fw(0)]})
+    # grids with equal coordinates and other weights (ones per point, a per-point variation, the automatic weights as an
+    # explicit array), then the weights of a grid object are changed in place -- through every element
+    for sp in specs():
+        N = len(sp.fwd)
+        D.append({'spec': sp.name, 'maxN': None, 'style': 'directed-weights',
+                  'near': [[0, 'weights', 1], [0, 'weights', 3], [0, 'weights', 4]],
+                  'ops': [fw(0), fw(N), fw(N + 1), fw(N + 2), bw(N), bw(0), bw(N + 1), fw(0), mut(0, 'weights', 5), fw(0), fw(N),
+                          mut(N, 'weights', 2, 1), bw(N), fw(N + 1)]})
     # default cache size overflow: 4 grids x 3 wavelengths = 12 > 11 instances
     ov = [fw(g, w) for w in range(3) for g in range(4)]
     D.append({'spec': 'Apodizer', 'maxN': None, 'style': 'directed', 'ops': ov + ov[:3] + [bw(0), bw(1, 2)]})
@@ -1677,7 +1806,8 @@ def compare_with_model(ctx, batch):
             if 'how' in m:
                 ctx.count('how:' + m['how'])
             if diffs:
-                ctx.disagree('C05 cache', {'spec': case['spec'], 'maxN': case['maxN'], 'ops': case['ops'][:k], 'line': line,
+                ctx.disagree('C05 cache', {'spec': case['spec'], 'maxN': case['maxN'], 'near': case.get('near', []),
+                                           'ops': case['ops'][:k], 'line': line,
                                            'diffs': diffs})
                 break
         pos += len(lines)
@@ -1694,7 +1824,8 @@ def run(ctx):
                 'and one creation; distinct by (element, style, maxN, #ops, #distinct requests). Fourier objects: shared vs '
                 'fresh object on random forward/backward histories with alternating dtypes and tensor shapes.')
     ctx.assumptions += ['xxhash of distinct test grids does not collide',
-                        'Grid.__hash__ ignores weights (C10); all test grids carry default weights']
+                        'Grid.__eq__/__hash__ ignore weights (C10); the test grids carry automatic and explicit weights (scalar '
+                        'and per point), the instance cache key is expected to distinguish them']
     un = uncovered_classes()
     ctx.extra['agnostic_classes_not_covered'] = un
     if un:
@@ -1746,6 +1877,11 @@ def run(ctx):
         ctx.count('style:' + case['style'])
         ctx.count('maxN:%s' % case['maxN'])
         ctx.count('instances_created', len(h.insts))
+        if any(n[1] == 'weights' for n in case.get('near', [])) or any(op[0] == 'mut' and op[2] == 'weights' for op in case['ops']):
+            ctx.count('histories_with_grids_differing_in_weights_only')
+        for k2, v2 in h.counts.items():
+            if k2.startswith(('grid-equal-coordinates', 'key-collision')):
+                ctx.count(k2, v2)
         fw_set = set((op[1], op[2]) for op in case['ops'] if op[0] == 'fwd')
         bw_set = set((op[1], op[2]) for op in case['ops'] if op[0] == 'bwd')
         if fw_set & bw_set:
